@@ -727,7 +727,7 @@ proof fn lemma_child_depth_smaller(t: &BlockTree<CachedBlock>, i: int)
     BlockTree::<CachedBlock>::lemma_max_child_depth_mono(t.children@, t.children@.len() as int, t.children@.len() as int);
 }
 
-//@extract file=canister/src/state.rs item="fn ingest_stable_blocks_into_utxoset" props=C03
+//@extract file=canister/src/state.rs item="fn ingest_stable_blocks_into_utxoset" props=C03,C08
 //@ ret r
 //@ rewrite R9 "fn pop_block\(state: &mut State, ingested_block_hash: BlockHash\)( -> [\w:<>]+)? \{" => "fn pop_block(state: &mut State, ingested_block_hash: BlockHash)\1 requires tree_ok(&old(state).unstable_blocks), stable_child_spec(&old(state).unstable_blocks).is_some(), old(state).unstable_blocks.tree.root.block_hash == ingested_block_hash, old(state).utxos.next_height >= 1, old(state).utxos.next_height < u32::MAX, ensures final(state).utxos == old(state).utxos, final(state).unstable_blocks.next_block_headers.wf(), bodies_exact(&final(state).unstable_blocks), headers_below_unchanged(old(state).stable_block_headers.by_height@, final(state).stable_block_headers.by_height@, (old(state).utxos.next_height - 1) as Height), final(state).metrics == old(state).metrics, final(state).unstable_blocks.stability_threshold == old(state).unstable_blocks.stability_threshold, 0 <= stable_child_spec(&old(state).unstable_blocks).unwrap() < old(state).unstable_blocks.tree.children@.len(), final(state).unstable_blocks.tree == old(state).unstable_blocks.tree.children@[stable_child_spec(&old(state).unstable_blocks).unwrap()], {"
 //@ spec
